@@ -34,6 +34,17 @@ def _run(payload, sub):
                           source_delete=spec.get('source_delete', True))]
     else:
         links += [DF.join_with_self('src', spec['source_key'], copy.deepcopy(spec['fields']))]
+    if sc.get('post_edit'):
+        # a later step that edits the kept source rows in place: the aggregates must have been taken from the rows as they were
+        def edit(rows):
+            for row in rows:
+                if rows.res.name == 'src':
+                    if row.get('n1') is not None:
+                        row['n1'] = row['n1'] * 100
+                    row['s1'] = None
+                    row['b1'] = None
+                yield row
+        links.append(edit)
     ds = DF.Flow(*links).datastream()
     rows = [list(r) for r in ds.res_iter]
     names = [r.name for r in ds.dp.resources]
@@ -69,7 +80,7 @@ class C11(Prop):
                    'values are observed through datastream() (raw), the typing of aggregate fields in the schema is C02\'s business']
     REAL_VS_STUB = {'real': ['dataflows join', 'kvfile + sqlite'], 'stub': ['KVFile twin: cache-size knob and operation counter only']}
     PROBES = ['mode-inner', 'mode-half-outer', 'mode-full-outer', 'dedup-mode', 'null-key', 'duplicate-source-key', 'unmatched-target-row', 'unmatched-source-key', 'key-format-string',
-              'key-row-number', 'wildcard-mapping', 'maps-onto-existing-target-column', 'falsy-first-value', 'spill-path (cache smaller than keys)', 'big-index (>10240 keys)', 'source-kept'] + ['agg:' + a for a in NUM_AGGS + ANY_AGGS]
+              'key-row-number', 'wildcard-mapping', 'maps-onto-existing-target-column', 'falsy-first-value', 'spill-path (cache smaller than keys)', 'big-index (>10240 keys)', 'source-kept', 'kept-source-edited-later'] + ['agg:' + a for a in NUM_AGGS + ANY_AGGS]
     TIERS = {'quick': dict(runs=1500, wall=100, run_wall=120),
              'thorough': dict(runs=40000, wall=1700, run_wall=600)}
     SHRINK_FROZEN = ('fields_',)
@@ -134,7 +145,7 @@ class C11(Prop):
         dedup = rng.random() < 0.2
         spec = {'source_key': sk, 'target_key': None if dedup else tk, 'fields': fields, 'mode': rng.choice(['inner', 'half-outer', 'half-outer', 'full-outer']),
                 'source_delete': rng.random() < 0.7}
-        return {'source': source, 'target': target, 'spec': spec, 'kv': rng.sample([1, 2, 3, 7, 10240], 2) if not big else [10240, 10240]}
+        return {'source': source, 'target': target, 'spec': spec, 'post_edit': (not dedup) and (not spec['source_delete']) and rng.random() < 0.6, 'kv': rng.sample([1, 2, 3, 7, 10240], 2) if not big else [10240, 10240]}
 
     def _val(self, rng, t):
         import decimal
@@ -197,7 +208,10 @@ class C11(Prop):
             if names != exp_names:
                 ctx.violation('schema', 'resources', 'output resources %r, expected %r; %s' % (names, exp_names, desc), kvsize=kvsize)
             if not dedup and not spec.get('source_delete', True):
-                if rows[0] != src_rows:
+                exp_src = src_rows
+                if sc.get('post_edit'):
+                    exp_src = [dict(r, n1=(r['n1'] * 100 if r.get('n1') is not None else None), s1=None, b1=None) for r in src_rows]
+                if rows[0] != exp_src:
                     ctx.violation('target-rows', 'source-changed', 'the kept source resource changed; %s' % desc, kvsize=kvsize)
             got = rows[-1]
             if dedup:
@@ -268,6 +282,8 @@ class C11(Prop):
             ctx.probe('wildcard-mapping')
         if not spec.get('source_delete', True):
             ctx.probe('source-kept')
+        if sc.get('post_edit'):
+            ctx.probe('kept-source-edited-later')
         tf = [f['name'] for f in sc['target']['fields']]
         if any(k in tf for k in spec['fields']) or ('*' in spec['fields']):
             ctx.probe('maps-onto-existing-target-column')
